@@ -2,7 +2,8 @@ SPECIFICATION Spec
 CONSTANTS
   Progs <- CurrentProgs
   MaxFaults = 1
-  ModeSet = {"0644", "0600", "0755"}
+  Umask = 18
+  ModeSet = {420, 384, 493}
   FormSet = {"file-nodir", "file-dir"}
 INVARIANTS TypeOK Formatted ExportDesign
 PROPERTY Terminates
